@@ -29,6 +29,7 @@ type c16In struct {
 	Fail      int   `json:"fail"`
 	Finally   int   `json:"finally"`
 	ErrListenerMS int `json:"err_listener_ms,omitempty"` // >0: the body registers an error listener that takes this long
+	KillBody  bool  `json:"kill_body,omitempty"` // the failing command of the body kills its scope instead of returning an error
 	StopAt    int   `json:"stop_at,omitempty"` // >0: the body stops its own scope (no error) before step stop_at-1
 	Second    bool  `json:"second,omitempty"` // a second try block (succeeding body, success + finally handlers) follows in the same scope
 }
@@ -55,6 +56,9 @@ func c16Gen(r *Rand, tier string) interface{} {
 	if in.FailAt < 0 && r.Chance(1, 6) {
 		in.StopAt = 1 + r.Intn(in.Steps+1)
 	}
+	if in.FailAt >= 0 && r.Chance(1, 4) {
+		in.KillBody = true
+	}
 	return in
 }
 
@@ -66,7 +70,11 @@ func (in *c16In) body() string {
 	}
 	for k := 0; k <= in.Steps; k++ {
 		if k == in.FailAt {
-			sb.WriteString("fail --id=b\n")
+			if in.KillBody {
+				sb.WriteString("killscope --id=b\n")
+			} else {
+				sb.WriteString("fail --id=b\n")
+			}
 		}
 		if k+1 == in.StopAt {
 			sb.WriteString("stopscope --id=b\n")
